@@ -1,6 +1,8 @@
 // One execution's world: virtual clock, simulated network, reference broker, real client,
 // scripted application, and the event loop that applies one environment decision at a time.
 #pragma once
+#include <deque>
+#include <cstdlib>
 #include "broker.hpp"
 #include "client_iface.hpp"
 #include "sim.hpp"
@@ -79,7 +81,8 @@ class World {
 public:
     const Scenario& sc;
     std::unique_ptr<sim::Net> net; std::unique_ptr<asio::io_context> ioc; std::unique_ptr<bkr::Broker> broker; std::unique_ptr<cli::IClient> client;
-    std::vector<OpRec> ops; size_t script_pos = 0; bool injected = false; int epoch = 0;
+    std::deque<OpRec> ops;   // deque: references stay valid when a completion handler initiates further operations
+    size_t script_pos = 0; bool injected = false; int epoch = 0;
     int handler_depth = 0; int initiating_op = -1; int running_handler_of = -1;
     std::vector<ChoiceRec> choices; std::vector<Vio> vios; std::vector<std::string> trace;
     int deviations = 0; int64_t last_deviation_ns = 0; bool capped = false; std::string cap_reason;
@@ -113,6 +116,8 @@ private:
     void enabled(std::vector<Event>& ev);
     void apply(const Event& e);
     bool app_action_enabled() const;
+    int64_t last_now_seen = -1; int last_time_change_step = 0;
+    bool in_epilogue = false; bool show_choices = getenv("SIMNET_SHOW_CHOICES") != nullptr;
     void do_action(const Action& a, bool from_handler);
     void initiate(const Action& a);
     void on_op_complete(int op);
